@@ -40,6 +40,9 @@ func init() {
 		g := v.Gen(w, c, MixWide)
 		g.FeeProb = 0.4
 		g.MaxTx = 8
+		if c.Job.Prop == "C19" {
+			g.MultiMsg = 0.15
+		}
 		n := c.N(120, 400)
 		// several things of the same kind falling due in ONE block (whatever the code collects them in
 		// decides the order they are stored in): incentives in three reward denoms, new to each of
